@@ -60,20 +60,20 @@ def replay_params(data):
 def _same(a, b, prec, fmt):
     bad = []
     pa_, pb_ = _cell_params(a.unit_cell), _cell_params(b.unit_cell)
-    if not np.allclose(pa_, pb_, atol=2.5e-6):
+    if not np.allclose(pa_, pb_, rtol=0, atol=2.5e-6):
         bad.append("%s: cell (from its lattice vectors) %s read back as %s" % (fmt, np.round(pa_, 6).tolist(), np.round(pb_, 6).tolist()))
     if a.space_group.international_tables_number != b.space_group.international_tables_number:
         bad.append("%s: space group %d read back as %d" % (fmt, a.space_group.international_tables_number, b.space_group.international_tables_number))
     if sorted(int(o.integer_code) for o in a.space_group.symmetry_operations) != sorted(int(o.integer_code) for o in b.space_group.symmetry_operations):
         bad.append("%s: operation set changed" % fmt)
-    if not np.allclose(a.unit_cell.parameters, b.unit_cell.parameters, atol=2e-6):
+    if not np.allclose(a.unit_cell.parameters, b.unit_cell.parameters, rtol=0, atol=2e-6):
         bad.append("%s: cell parameters %s read back as %s" % (fmt, np.round(a.unit_cell.parameters, 6).tolist(), np.round(b.unit_cell.parameters, 6).tolist()))
     if [e.atomic_number for e in a.asymmetric_unit.elements] != [e.atomic_number for e in b.asymmetric_unit.elements]:
         bad.append("%s: elements changed" % fmt)
     if list(a.asymmetric_unit.labels) != list(b.asymmetric_unit.labels):
         bad.append("%s: labels %s read back as %s" % (fmt, list(a.asymmetric_unit.labels), list(b.asymmetric_unit.labels)))
     pa, pb = np.asarray(a.asymmetric_unit.positions, float), np.asarray(b.asymmetric_unit.positions, float)
-    if pa.shape != pb.shape or not np.allclose(pa, pb, atol=prec):
+    if pa.shape != pb.shape or not np.allclose(pa, pb, rtol=0, atol=prec):
         bad.append("%s: fractional coordinates changed" % fmt)
     return bad
 
@@ -100,11 +100,11 @@ def roundtrip(c, formats=("cif", "res", "poscar")):
         try:
             p = Crystal.from_vasp_string(c.to_poscar_string())
             uc = c.unit_cell_atoms()
-            if p.space_group.international_tables_number != 1 or not np.allclose(p.unit_cell.direct, c.unit_cell.direct, atol=0.6e-8):
+            if p.space_group.international_tables_number != 1 or not np.allclose(p.unit_cell.direct, c.unit_cell.direct, rtol=0, atol=0.6e-8):
                 bad.append("poscar: not P1 with the same lattice vectors")
             A = sorted((int(z), *np.round(np.asarray(x, float), 6)) for z, x in zip(uc["element"], uc["frac_pos"]))
             B = sorted((int(e.atomic_number), *np.round(np.asarray(x, float), 6)) for e, x in zip(p.asymmetric_unit.elements, p.asymmetric_unit.positions))
-            if len(A) != len(B) or not np.allclose(np.array(A), np.array(B), atol=2e-6):
+            if len(A) != len(B) or not np.allclose(np.array(A), np.array(B), rtol=0, atol=2e-6):
                 bad.append("poscar: set of unit-cell atoms changed (%d written, %d read)" % (len(A), len(B)))
         except Exception as e:
             bad.append("poscar round trip raises %s: %s" % (type(e).__name__, e))
@@ -303,7 +303,7 @@ def part_symbolic(ctx, thorough, groups, wides):
                 frac = [[float(model_value(mdl, F[i, k].t)) if mdl is not None else 0.25 for k in range(3)] for i in range(2)]
                 failures.append((number, choice, fmt, why, frac))
     for number, choice, fmt, why, frac in failures[:3]:
-        d = {"number": number, "choice": choice, "formats": [fmt]}
+        d = {"number": number, "choice": choice, "formats": [fmt], "occ": [1.0, 0.5]}     # the symbolic crystal has two sites, occupancies 1 and 0.5
         if frac is not None:
             d["frac"] = frac
         ctx.violation("rt:symbolic:%s" % fmt, "%s round trip (setting %d:%s): %s" % (fmt, number, choice, why), d, replay_setting)
@@ -323,7 +323,7 @@ def _check_symbolic(c, c2, reg, fmt, F, ex, pc):
     if fmt == "poscar":
         if c2.space_group.international_tables_number != 1:
             return "not P1"
-        if not np.allclose(np.asarray(c2.unit_cell.direct, float), np.asarray(c.unit_cell.direct, float), atol=0.6e-8):
+        if not np.allclose(np.asarray(c2.unit_cell.direct, float), np.asarray(c.unit_cell.direct, float), rtol=0, atol=0.6e-8):
             return "lattice vectors changed"
         els = [e.atomic_number for e in c2.asymmetric_unit.elements]
         if sorted(els) != [6, 17] or pos.shape != (2, 3):
@@ -337,7 +337,7 @@ def _check_symbolic(c, c2, reg, fmt, F, ex, pc):
     if c2.space_group.international_tables_number != c.space_group.international_tables_number or \
             sorted(int(o.integer_code) for o in c2.space_group.symmetry_operations) != sorted(int(o.integer_code) for o in c.space_group.symmetry_operations):
         return "space group changed"
-    if not np.allclose(np.asarray(c2.unit_cell.parameters, float), np.asarray(c.unit_cell.parameters, float), atol=2e-6):
+    if not np.allclose(np.asarray(c2.unit_cell.parameters, float), np.asarray(c.unit_cell.parameters, float), rtol=0, atol=2e-6):
         return "cell parameters changed"
     if [e.atomic_number for e in c2.asymmetric_unit.elements] != [6, 17] or list(c2.asymmetric_unit.labels) != ["C1", "Cl2A"]:
         return "elements/labels changed: %s %s" % ([e.atomic_number for e in c2.asymmetric_unit.elements], list(c2.asymmetric_unit.labels))
